@@ -247,7 +247,7 @@ func hasJunk(toks []etok) bool {
 	for _, t := range toks {
 		if t.K == "o" {
 			switch t.S {
-			case "😀", "@", "$", "\uffff", "𝑥", "#":
+			case "😀", "@", "$", "\uffff", "𝑥", "#", "\u00a0", "\u0085":
 				return true
 			}
 		}
@@ -264,7 +264,11 @@ var c02Alphabet = []etok{{"i", "\"NULL\""}, {"c", "1"}, {"i", "a"}, {"o", "("}, 
 // full vocabulary for the mutation test
 var c02Vocabulary = []etok{{"c", "1"}, {"c", "2.5"}, {"c", "'s'"}, {"c", "TRUE"}, {"c", "FALSE"}, {"i", "a"}, {"i", "b"}, {"i", "f"}, {"i", "\"q i\""},
 	{"i", "\" \""}, {"i", "\"\t\""}, {"i", "\"null\""}, {"i", "\"IS\""}, {"i", "\"not\""}, {"i", "\"and\""}, {"i", "\"In\""}, {"i", "\"like\""}, {"i", "\"true\""}, {"c", "'NULL'"}, {"c", "'and'"},
+	// literals and quoted names whose content begins or ends with an escaped quote, or is nothing but one
+	{"c", "''''"}, {"c", "'''a'"}, {"c", "'a'''"}, {"c", "'''a'''"}, {"i", "\"\"\"x\""}, {"i", "\"6\"\"\""}, {"i", "\"\"\"\""},
 	{"o", "😀"}, {"o", "@"}, {"o", "$"}, {"o", "\uffff"}, {"o", "𝑥"}, {"o", "#"},
+	// characters that look blank but are not whitespace of the expression language (only U+0000..U+0020 is)
+	{"o", "\u00a0"}, {"o", "\u0085"},
 	{"o", "("}, {"o", ")"}, {"o", "["}, {"o", "]"}, {"o", ","}, {"o", "+"}, {"o", "-"}, {"o", "*"}, {"o", "/"}, {"o", "%"}, {"o", "^"},
 	{"o", "="}, {"o", "<>"}, {"o", ">"}, {"o", "<"}, {"o", ">="}, {"o", "<="}, {"o", "<<"}, {"o", ">>"},
 	{"o", "AND"}, {"o", "OR"}, {"o", "XOR"}, {"o", "NOT"}, {"o", "IS"}, {"o", "IN"}, {"o", "NULL"}, {"o", "LIKE"}}
